@@ -41,10 +41,12 @@ def confirm(d):
     res = {"id": name, "ok": False}
     wt = worktree("c-" + name)
     try:
-        demo = os.path.join(wt, "zz_demo")
+        # same directory name as the author used (some demonstrations depend on their package path)
+        dname = "demo" + (name.split("-")[-1] if name.split("-")[-1].isdigit() else "")
+        demo = os.path.join(wt, dname)
         os.makedirs(demo)
         shutil.copy(os.path.join(d, "demo_test.go"), os.path.join(demo, "demo_test.go"))
-        rc, out = sh(["go", "test", "-vet=off", "-count=1", "./zz_demo/"], cwd=wt)
+        rc, out = sh(["go", "test", "-vet=off", "-count=1", "./" + dname + "/"], cwd=wt)
         res["demo_without"] = "pass" if rc == 0 else "FAIL"
         if rc != 0:
             res["why"] = "demonstration fails on the pristine tree:\n" + out[-1500:]
@@ -57,7 +59,7 @@ def confirm(d):
         if rc != 0:
             res["why"] = "does not build: " + out[-1500:]
             return res
-        rc, out = sh(["go", "test", "-vet=off", "-count=1", "./zz_demo/"], cwd=wt)
+        rc, out = sh(["go", "test", "-vet=off", "-count=1", "./" + dname + "/"], cwd=wt)
         res["demo_with"] = "fail" if rc != 0 else "PASS"
         if rc == 0:
             res["why"] = "demonstration passes with the change"
